@@ -24,7 +24,9 @@ ASSUMPTIONS = [
     "the store's enumeration order is an input of the writer model",
 ]
 PARTIAL = [
-    "C13_first_refused: WHICH element is refused — for every walk order and every writable CIF cif_write (CIF 1.1) succeeds iff the scan "
+    "C13_first_refused concludes only the REFUSAL CODE (cif_write returns nothing else): 'which element' means that the code is that of the "
+    "first element the scan containersFirst finds — the theorem does not (and, from the return value, cannot) identify the element itself.  "
+    "Statement: for every walk order and every writable CIF cif_write (CIF 1.1) succeeds iff the scan "
     "containersFirst (container code, save frames, loops; loop-header names before packets; a data name before its value; within a string a CR (value) first, then its "
     "characters, then its presentation; a list or table as such) finds nothing, and otherwise returns the code of the FIRST element it finds "
     "(CIF_DISALLOWED_CHAR for a code / name / string with a character outside CIF 1.1, CIF_DISALLOWED_VALUE for a list, table or string "
